@@ -25,3 +25,36 @@ package files
 //@   requires fsroot == destDir
 //@   loop 1
 //@     invariant fsroot == destDir
+
+// ---- C17: the memory-mapped store (the second bytes.Buffer implementation) against the same store model as the
+// in-memory one: sarr = arr(mmf.mf), soff = off(mmf.mf), ssize = mmf.size.  The mapping itself (mmap.MapRegion: a byte
+// slice of the requested length backed by the file) and the operating system are assumed; what is verified is that the
+// accessors hand out exactly the window [offs, offs+min(size, Size-offs)) of that mapping - aliasing, never beyond it -
+// and reject every offset outside it, that a size which is not a positive multiple of the block size is refused, and
+// that a successful open/grow leaves a mapping of exactly the size reported.
+//@ pred (mmf *MMFile) mapped() = mmf != nil && 0 < mmf.size && len(mmf.mf) == mmf.size
+//@ func checkSize(size int64) error
+//@   props C17
+//@   ensures (r0 == nil) == (size > 0 && size % 4096 == 0)
+//@ func (mmf *MMFile) Size() int64
+//@   props C17
+//@   requires mmf != nil
+//@   ensures r0 == mmf.size
+//@ func (mmf *MMFile) Buffer(offs int64, size int) ([]byte, error)
+//@   props C17
+//@   requires mmf.mapped() && mmf.size <= 1<<46 && 0 <= size && size <= 1<<46
+//@   ensures 0 <= offs && offs < mmf.size ==> r1 == nil && sameArray(r0, mmf.mf) && off(r0) == off(mmf.mf) + offs && len(r0) == min(size, mmf.size - offs)
+//@   ensures !(0 <= offs && offs < mmf.size) ==> r1 != nil && r0 == nil
+//@ func NewMMFile(fname string, size int64) (*MMFile, error)
+//@   props C17
+//@   ensures r1 == nil ==> r0 != nil && fresh(r0) && r0.mapped() && (size >= 0 ==> r0.size == size) && r0.size % 4096 == 0
+//@   ensures r1 != nil ==> r0 == nil
+//@   ensures size == 0 || (size > 0 && size % 4096 != 0) ==> r1 != nil
+// Grow: a request that is not larger than the mapping, or not a positive multiple of the block size, is refused and
+// changes nothing; on success the mapping has exactly the new size
+//@ func (mmf *MMFile) Grow(newSize int64) (err error)
+//@   props C17
+//@   requires mmf != nil && mmf.f != nil && mmf.size > 0
+//@   modifies mmf.mf, mmf.size, mmf.f
+//@   ensures r0 == nil ==> mmf.mapped() && mmf.size == newSize && newSize > old(mmf.size) && newSize % 4096 == 0
+//@   ensures newSize <= old(mmf.size) || newSize % 4096 != 0 ==> r0 != nil && mmf.size == old(mmf.size) && mmf.mf == old(mmf.mf) && mmf.f == old(mmf.f)
